@@ -8,15 +8,18 @@ Definition l_com : label := [99;111;109].
 Definition l_ads : label := [97;100;115].
 Definition l_ok : label := [111;107].
 
-(* exists_spec: a plain entry, a wildcard entry, a whitelist entry; a mixed-case query *)
+(* exists_spec: a plain entry, a wildcard entry, a whitelist entry; a mixed-case
+   query; a label with a dot, a space and a byte above 126 *)
+Definition l_odd : label := [97; 46; 98; 32; 200].
 Example exists_spec_example :
   let M := [[l_example; l_com]] in let W := [[l_ads; l_com]] in let Wl := [[l_ok; l_ads; l_com]] in
-  Forall plainP M /\ Forall plainP W /\ Forall plainP Wl /\
-  plainP [[88]; [69;120;65;109;80;108;69]; l_com] /\
-  bl_exists (state_of M W Wl) (render [[88]; [69;120;65;109;80;108;69]; l_com]) = true /\
-  bl_exists (state_of M W Wl) (render [[120]; l_ads; l_com]) = true /\
-  bl_exists (state_of M W Wl) (render [l_ads; l_com]) = false /\
-  bl_exists (state_of M W Wl) (render [[120]; l_ok; l_ads; l_com]) = false.
+  Forall wireP M /\ Forall wireP W /\ Forall wireP Wl /\
+  wireP [[88]; [69;120;65;109;80;108;69]; l_com] /\ wireP [l_odd; l_ads; l_com] /\
+  bl_exists (state_of M W Wl) (present [[88]; [69;120;65;109;80;108;69]; l_com]) = true /\
+  bl_exists (state_of M W Wl) (present [[120]; l_ads; l_com]) = true /\
+  bl_exists (state_of M W Wl) (present [l_odd; l_ads; l_com]) = true /\
+  bl_exists (state_of M W Wl) (present [l_ads; l_com]) = false /\
+  bl_exists (state_of M W Wl) (present [[120]; l_ok; l_ads; l_com]) = false.
 Proof. cbn zeta. repeat split; repeat constructor. Qed.
 
 (* reload_equiv / reload_exact_partial: good, clean; redundant and irredundant lists *)
@@ -27,12 +30,10 @@ Definition w_ok : list str := [[111;107;46;116;101;115;116;46]].   (* ok.test. *
 
 Example reload_equiv_example :
   Forall (good_entry w_ok) (entries_of [e_sub; e_ex] [e_other]) /\
-  Forall clean_entry (entries_of [e_sub; e_ex] [e_other]) /\
   ~ irredundant (entries_of [e_sub; e_ex] [e_other]).
 Proof.
-  split; [|split].
+  split.
   - repeat constructor.
-  - repeat constructor; discriminate.
   - intros [_ H]. apply (H (EPlain e_sub) (EPlain e_ex)).
     + now left.
     + right. now left.
@@ -42,12 +43,10 @@ Qed.
 
 Example reload_exact_partial_example :
   Forall (good_entry w_ok) (entries_of [e_ex] [e_other]) /\
-  Forall clean_entry (entries_of [e_ex] [e_other]) /\
   irredundant (entries_of [e_ex] [e_other]).
 Proof.
-  split; [|split].
+  split.
   - repeat constructor.
-  - repeat constructor; discriminate.
   - split.
     + repeat constructor; cbn; intuition discriminate.
     + intros en en' [<-|[<-|[]]] [<-|[<-|[]]] Hne; try congruence; cbn; intuition discriminate.
